@@ -309,8 +309,8 @@ func init() {
 				if t.Small {
 					k = 3
 				}
-				if tier == "thorough" {
-					k++
+				if tier == "thorough" && zooSlots(t) <= 7 {
+					k++ // one more deviation where the value has few slots (the space grows as slots^k)
 				}
 				if t.Name == "Scalars" || t.Name == "Many" {
 					k-- // many slots: the bound is one lower
